@@ -217,7 +217,14 @@ def build_libs(cfgs, targets=("ascon_static",), repo=None):
 
 
 # ---------------------------------------------------------------- harness builds
-COMMON_HDRS = [os.path.join(VERIF, "ref", "ascon_ref.hpp"), os.path.join(VERIF, "harness", "common.hpp")]
+def _all_headers():
+    out = [os.path.join(VERIF, "ref", "ascon_ref.hpp")]
+    hd = os.path.join(VERIF, "harness")
+    out += sorted(os.path.join(hd, f) for f in os.listdir(hd) if f.endswith((".hpp", ".h")))
+    return out
+
+
+COMMON_HDRS = _all_headers()   # every harness object depends on every harness header (cheap and safe)
 
 
 def public_headers(repo=None):
